@@ -46,6 +46,11 @@ class EdgeList:
             corner_1 = data[0]
             corner_2 = data[1]
 
+            # edge data is given from a face's point to the next one;
+            # the last edge of a face runs from the last point back to the first
+            if (corner_1, corner_2) in ((0, 3), (4, 7)):
+                corner_1, corner_2 = corner_2, corner_1
+
             vertex_1 = vertices[corner_1]
             vertex_2 = vertices[corner_2]
 
